@@ -191,7 +191,9 @@ def cases(draw, tier):
 class C08(Check):
     pid = 'C08'
     level = 'exploration'
-    rule = ('1-3 condition expression trees (depth<=3) over flags, inverted flags, tracked comparisons (6 operators, '
+    rule = ('[resources have two kinds (comparisons are element-wise, inverses must be boolean negations); flags are also set '
+            'through their inverse; one-decimal date mode with many date waiters] '
+            '1-3 condition expression trees (depth<=3) over flags, inverted flags, tracked comparisons (6 operators, '
             'value-vs-constant and value-vs-value), resource-level comparisons, task.done/~done, time >=,<,== atoms, instant, '
             'eternity, built with the real & | ~ operators; a driver applies a generated change history (several changes per '
             'time step incl. set-then-revert and changes spread over rounds of one step); 1-4 waiters start at generated '
